@@ -55,6 +55,7 @@ def check(repo, res, tier):
     l4c(repo, res, canon, logic)
     l6(repo, res, canon)
     l13(repo, res, canon)
+    l15(repo, res, canon)
     l12(repo, res, canon)
     from . import defined
     res.rule('C05.L10', 'every attribute read through self in a reachable method has a definition somewhere (class family, '
@@ -411,6 +412,78 @@ def l12(repo, res, canon):
                                              '%d proposing path(s)' % nseg if ok and nseg else why or 'no proposing path found')
     if not n:
         raise AnalysisError('no algorithm proposes from the ready pool (C05.L12 anchor moved)')
+
+
+# ---------------------------------------------------------------------- L15
+def l15(repo, res, canon):
+    """A data attribute read from something the same path has just found to be falsy / None:
+    `if not self.slot: size += self.slot.total_data_size`.  Whatever falsy value it holds (None, 0,
+    an empty container) has no such attribute: AttributeError on the first ordinary call."""
+    res.rule('C05.L15', 'no data attribute is read from a location the same path has established to be falsy / None '
+                        '(with no assignment, call or yield in between)')
+    from .defined import reachable, LIVE_PREFIXES
+    reach = reachable(repo)
+    n_tests = 0
+    for f in repo.all_functions():
+        if not f.module.name.startswith(LIVE_PREFIXES) or (
+                f.module.name, f.cls.name if f.cls else None, f.name) not in reach:
+            continue
+        seen = set()
+        for p in cached_paths(f):
+            falsy = {}          # canonical location -> test node
+            for e in p.events:
+                if e.frame is not None and e.frame.func is not f:
+                    continue
+                if e.kind == 'test' and e.node is not None:
+                    tn, tp = e.node, bool(e.pol)
+                    while isinstance(tn, ast.UnaryOp) and isinstance(tn.op, ast.Not):
+                        tn, tp = tn.operand, not tp
+                    loc = None
+                    if isinstance(tn, (ast.Name, ast.Attribute, ast.Subscript)):
+                        loc, is_falsy = canon.c(tn, e.frame), not tp
+                    elif isinstance(tn, ast.Compare) and len(tn.ops) == 1 and isinstance(tn.ops[0], (ast.Is, ast.IsNot)) \
+                            and isinstance(tn.comparators[0], ast.Constant) and tn.comparators[0].value is None:
+                        loc, is_falsy = canon.c(tn.left, e.frame), (isinstance(tn.ops[0], ast.Is) == tp)
+                    if loc is not None:
+                        n_tests += 1
+                        if is_falsy:
+                            falsy[loc] = tn
+                        else:
+                            falsy.pop(loc, None)
+                    # reads inside the same test after the check (`x and x.a`) are guarded by short-circuit: skip
+                    continue
+                if e.kind in ('loop', 'for', 'for0', 'back'):
+                    falsy.clear()
+                    continue
+                if e.kind != 'stmt' or e.node is None:
+                    continue
+                n = e.node
+                for x in ast.walk(n):
+                    if isinstance(x, ast.Attribute) and isinstance(x.ctx, ast.Load) and falsy:
+                        base = canon.c(x.value, e.frame)
+                        if base in falsy and (f.qual, base, x.attr) not in seen:
+                            # a method call on an empty container (`.append`) is fine; a data attribute is not
+                            par_call = any(isinstance(c, ast.Call) and c.func is x for c in ast.walk(n))
+                            if not par_call:
+                                seen.add((f.qual, base, x.attr))
+                                res.bad('C05.L15', f, x, '%s.%s read although %s is falsy here' % (
+                                    short(ast.unparse(x.value), 40), x.attr, short(ast.unparse(x.value), 40)),
+                                    'on this path `%s` has just been found to be falsy / None and then `.%s` is read from it: '
+                                    'AttributeError -- the run does not complete' % (short(ast.unparse(x.value), 50), x.attr),
+                                    path=p.describe())
+                # any assignment, call or yield may change what was tested
+                if isinstance(n, (ast.Assign, ast.AugAssign, ast.AnnAssign, ast.Delete)) or any(
+                        isinstance(x, (ast.Call, ast.Yield, ast.YieldFrom, ast.Await)) for x in ast.walk(n)):
+                    if isinstance(n, (ast.Assign, ast.AugAssign, ast.AnnAssign)) and not any(
+                            isinstance(x, (ast.Call, ast.Yield, ast.YieldFrom)) for x in ast.walk(n)):
+                        tg = n.targets if isinstance(n, ast.Assign) else [n.target]
+                        for t_ in tg:
+                            falsy.pop(canon.c(t_, e.frame), None)
+                    else:
+                        falsy.clear()
+    res.ok('C05.L15', 'topsim', None, '%d truthiness / None tests followed along their paths' % n_tests, 'no dereference of a falsy value')
+    if n_tests < 50:
+        raise AnalysisError('only %d truthiness tests found (C05.L15 anchor moved)' % n_tests)
 
 
 # ---------------------------------------------------------------------- L13
